@@ -170,5 +170,9 @@ func (p *Impl) OnLevelChange(v int32) error {
 	return nil
 }
 
+// OnModeChange accepts every value of the second property (mode): it exists so that an
+// object has two properties (a table of properties updated key by key).
+func (p *Impl) OnModeChange(v int32) error { return nil }
+
 // ProbeMeta returns the meta-object of the Probe interface.
 func ProbeMeta() object.MetaObject { return (&stubProbe{}).metaObject() }
